@@ -174,6 +174,8 @@ func c05Body(t *rapid.T) {
 	var hist []string
 	crashes, faults, pauses := 0, 0, 0
 	crashBetweenAckAndCheckpoint := false
+	doubleFaults, needRestart := 0, false
+	doubleFired := 0
 	var dead atomic.Bool
 	hasData := func(pk *milvus.Pack) bool {
 		for _, m := range pk.Msgs {
@@ -194,6 +196,13 @@ func c05Body(t *rapid.T) {
 	recover := func() {
 		// bring the service back: restart after a crash, resume paused tasks
 		clearFaults()
+		if needRestart && !dead.Load() {
+			// after the double fault the views of the task may disagree (C11's business); the persisted state decides: restart
+			needRestart = false
+			settle()
+			w.inc.kill()
+			dead.Store(true)
+		}
 		if dead.Load() {
 			settle()
 			dead.Store(false)
@@ -236,7 +245,63 @@ func c05Body(t *rapid.T) {
 	}
 	nSteps := rapid.IntRange(4, 14).Draw(t, "steps")
 	for i := 0; i < nSteps; i++ {
-		switch rapid.SampledFrom([]string{"rows", "rows", "rows", "failWrite", "failCheckpoint", "crashBeforeWrite", "crashAfterAck", "crashAfterCheckpoint", "pauseResume", "recover"}).Draw(t, "step") {
+		switch rapid.SampledFrom([]string{"rows", "rows", "rows", "failWrite", "failCheckpoint", "crashBeforeWrite", "crashAfterAck", "crashAfterCheckpoint", "pauseResume", "recover", "failWriteAndStateUpdate"}).Draw(t, "step") {
+		case "failWriteAndStateUpdate":
+			// two faults in a row: the downstream rejects a write and the store rejects the state update of the automatic pause
+			// that follows. Whatever the service then reports about the task, the failed pack must not be passed by a checkpoint
+			// (monitor a); the case later restarts the service, which is what brings such a task back from the persisted state.
+			if dead.Load() || doubleFaults >= 1 {
+				continue
+			}
+			doubleFaults++
+			var n atomic.Int32
+			var writeFailed atomic.Bool
+			tgt.Before = func(cc *milvus.CallCtx) error {
+				// rejected for as many attempts as the writer's own retry makes (a single rejection is absorbed by it)
+				if cc.Method == "ReplicateMessage" && cc.Pack != nil && hasData(cc.Pack) && n.Add(1) <= 3 {
+					writeFailed.Store(true)
+					if os.Getenv("VERIF_C05_TRACE") != "" {
+						fmt.Printf("TRACE double fault: write rejected (attempt %d)\n", n.Load())
+					}
+					return fmt.Errorf("injected: downstream rejects the write")
+				}
+				return nil
+			}
+			var m atomic.Int32
+			var stateRejected atomic.Bool
+			w.inc.store.setHook(func(op *storeOp) error {
+				monitor(op)
+				if os.Getenv("VERIF_C05_TRACE") != "" && writeFailed.Load() {
+					fmt.Printf("TRACE store op after the rejected write: %s task=%s\n", op.Kind, op.Task)
+				}
+				if op.Kind == "info.put" && writeFailed.Load() && m.Add(1) == 1 {
+					stateRejected.Store(true)
+					if os.Getenv("VERIF_C05_TRACE") != "" {
+						fmt.Printf("TRACE double fault fired: state update of %s rejected after a rejected write\n", op.Task)
+					}
+					return fmt.Errorf("injected: store rejects the state update")
+				}
+				return nil
+			})
+			needRestart = true
+			faults++
+			hist = append(hist, "failWriteAndStateUpdate")
+			// the faults are made to happen now (the writer retries a second later): a row, then ticks until the state update
+			// of the automatic pause has been rejected
+			sx := streams[rapid.IntRange(0, len(streams)-1).Draw(t, "faultStream")]
+			counted = append(counted, p.insert(sx.c, sx.shard, 1, 2)...)
+			if waitTicking(p, pchs, 8*time.Second, func() bool { return stateRejected.Load() }) {
+				doubleFired++
+				// more traffic on the stream behind the failed pack
+				counted = append(counted, p.insert(sx.c, sx.shard, 1, 2)...)
+				for k := 0; k < 5; k++ {
+					for _, pc := range pchs {
+						p.tick(pc, 2)
+					}
+					time.Sleep(20 * time.Millisecond)
+				}
+				settle()
+			}
 		case "rows":
 			n := rapid.IntRange(1, 3).Draw(t, "n")
 			for j := 0; j < n; j++ {
@@ -383,6 +448,7 @@ func c05Body(t *rapid.T) {
 	st.ClassIf(crashes > 0, "crash_and_restart")
 	st.ClassIf(crashBetweenAckAndCheckpoint, "crash_between_ack_and_checkpoint")
 	st.ClassIf(faults > 0, "write_or_checkpoint_fault")
+	st.ClassIf(doubleFired > 0, "write_fault_followed_by_state_update_fault")
 	st.ClassIf(pauses > 0, "pause_resume")
 	st.ClassIf(twoTasks, "two_tasks")
 	st.ClassIf(packerMax > 1, "batched_writes")
